@@ -504,12 +504,10 @@ theorem Def.iff {α} {P : α → Prop} {r : Res α} : Res.Def P r ↔ r ≠ .non
   cases r <;> simp [Res.Def]
 
 theorem Def.widen {α} {P : α → Prop} {t : ATag} {xs : List Val} {fs : List (Val → Res Val)}
-    {extra : List Cat} {r : Res α} (h : Res.Def P r) : Res.Def P (widen t xs fs extra r) := by
-  cases r with
-  | err cs => simp only [_root_.Jmes.widen]; split <;> trivial
-  | ok a => exact h
-  | nondet => exact h
-  | _ => trivial
+    {extra : List Cat} {r : Res α} (ht : tagOk true t = true) (h : Res.Def P r) :
+    Res.Def P (widen t xs fs extra r) := by
+  rw [widen_of_not_enum2 r (enum2_of_tagOk xs ht)]
+  exact h
 
 abbrev DefR (r : Res Val) : Prop := Res.Def (fun v => v.Good true = true) r
 abbrev DefLR (r : Res (List Val)) : Prop := Res.Def (fun vs => Val.GoodL true vs = true) r
@@ -517,9 +515,9 @@ abbrev DefFR (r : Res (List (Bytes × Val))) : Prop := Res.Def (fun kvs => Val.G
 abbrev DefFn (f : Val → Res Val) : Prop := ∀ v, v.Good true = true → DefR (f v)
 
 theorem widenArr_def {t t' : ATag} {xs : List Val} {fs : List (Val → Res Val)} {extra : List Cat}
-    {loop : Res (List Val)} (ht' : tagOk true t' = true) (h : DefLR loop) :
+    {loop : Res (List Val)} (ht : tagOk true t = true) (ht' : tagOk true t' = true) (h : DefLR loop) :
     DefR (widen t xs fs extra (loop >>= fun r => pure (Val.arr t' r))) :=
-  Def.widen (Def.bind h fun _ hr => Def.pure (good_arr.mpr ⟨ht', hr⟩))
+  Def.widen ht (Def.bind h fun _ hr => Def.pure (good_arr.mpr ⟨ht', hr⟩))
 
 theorem mapPrune_def {f : Val → Res Val} (hf : DefFn f) :
     ∀ {xs : List Val}, Val.GoodL true xs = true → DefLR (mapPrune f xs)
@@ -571,7 +569,7 @@ theorem projectArray_def {f : Val → Res Val} {v : Val} (hf : DefFn f) (h : v.G
   cases v with
   | arr t xs =>
     have ⟨ht, hx⟩ := good_arr.mp h
-    exact widenArr_def (tagOk_derived ht) (mapPrune_def hf hx)
+    exact widenArr_def ht (tagOk_derived ht) (mapPrune_def hf hx)
   | _ => exact good_null
 
 theorem filterArray_def {c : Val → Res Val} {v : Val} (hc : DefFn c) (h : v.Good true = true) :
@@ -579,7 +577,7 @@ theorem filterArray_def {c : Val → Res Val} {v : Val} (hc : DefFn c) (h : v.Go
   cases v with
   | arr t xs =>
     have ⟨ht, hx⟩ := good_arr.mp h
-    exact widenArr_def (tagOk_derived ht) (filterLoop_def hc hx)
+    exact widenArr_def ht (tagOk_derived ht) (filterLoop_def hc hx)
   | _ => exact good_null
 
 theorem filterAndProjectArray_def {c f : Val → Res Val} {v : Val} (hc : DefFn c) (hf : DefFn f)
@@ -587,7 +585,7 @@ theorem filterAndProjectArray_def {c f : Val → Res Val} {v : Val} (hc : DefFn 
   cases v with
   | arr t xs =>
     have ⟨ht, hx⟩ := good_arr.mp h
-    exact widenArr_def (tagOk_derived ht) (filterMapPrune_def hc hf hx)
+    exact widenArr_def ht (tagOk_derived ht) (filterMapPrune_def hc hf hx)
   | _ => exact good_null
 
 theorem flattenAndProjectArray_def {f : Val → Res Val} {v : Val} (hf : DefFn f)
@@ -595,7 +593,7 @@ theorem flattenAndProjectArray_def {f : Val → Res Val} {v : Val} (hf : DefFn f
   cases v with
   | arr t xs =>
     have ⟨ht, hx⟩ := good_arr.mp h
-    exact widenArr_def (flattenTag_ok ht hx) (mapPrune_def hf (goodL_flattenForProject hx))
+    exact widenArr_def (flattenTag_ok ht hx) (flattenTag_ok ht hx) (mapPrune_def hf (goodL_flattenForProject hx))
   | _ => exact good_null
 
 theorem mapArray_def {f : Val → Res Val} {v : Val} (hf : DefFn f) (h : v.Good true = true) :
@@ -603,7 +601,7 @@ theorem mapArray_def {f : Val → Res Val} {v : Val} (hf : DefFn f) (h : v.Good 
   cases v with
   | arr t xs =>
     have ⟨ht, hx⟩ := good_arr.mp h
-    exact widenArr_def (tagOk_derived ht) (mapAll_def hf hx)
+    exact widenArr_def ht (tagOk_derived ht) (mapAll_def hf hx)
   | _ => exact Def.errType
 
 theorem keysFrom_def {f : Val → Res Val} (hf : DefFn f) (b : Bool) :
@@ -645,7 +643,7 @@ theorem arrayPickBy_def (better : Key → Key → Bool) {f : Val → Res Val} {v
     | cons x0 rest =>
       have ⟨hx0, hrest⟩ := goodL_cons.mp hx
       simp only [arrayPickBy]
-      refine Def.widen (Def.bind (keysOf_def hf hx) fun ks _ => ?_)
+      refine Def.widen ht (Def.bind (keysOf_def hf hx) fun ks _ => ?_)
       split
       · exact good_null
       · rw [enum2_of_tagOk _ ht]
@@ -669,7 +667,7 @@ theorem sortArrayBy_def {f : Val → Res Val} {v : Val} (hf : DefFn f) (h : v.Go
     simp only [sortArrayBy]
     split
     · exact h
-    · refine Def.widen (Def.bind (keysOf_def hf hx) fun ks _ => ?_)
+    · refine Def.widen ht (Def.bind (keysOf_def hf hx) fun ks _ => ?_)
       rw [enum2_of_tagOk _ ht]
       simp only [Bool.false_and, Bool.false_eq_true, if_false]
       exact good_plainArr (goodL_sortByKeys ks hx)
@@ -696,7 +694,7 @@ theorem groupBy_def {f : Val → Res Val} {v : Val} (hf : DefFn f) (h : v.Good t
     simp only [groupBy]
     split
     · exact good_null
-    · refine Def.widen (Def.bind (groupLoop_def hf hx (acc := []) (fun _ h => by cases h)) fun gs hgs => Def.pure ?_)
+    · refine Def.widen ht (Def.bind (groupLoop_def hf hx (acc := []) (fun _ h => by cases h)) fun gs hgs => Def.pure ?_)
       refine good_obj.mpr (goodF_iff.mpr fun kv hkv => ?_)
       obtain ⟨kg, hkg, rfl⟩ := List.mem_map.mp hkv
       exact good_arr.mpr ⟨tagOk_derived ht, hgs kg hkg⟩
